@@ -64,7 +64,8 @@ pub fn bytes_of(case: &Case) -> (Vec<u8>, usize) {
                     b.push(8);
                 }
                 112 => {
-                    b.extend_from_slice(&0u32.to_be_bytes()); // size (ignored by readers that trust the content)
+                    // Size: zero, or as inflated as NumFree (a reader may trust either field, or the smaller of the two)
+                    b.extend_from_slice(&(if *w % 2 == 1 { c } else { 0u32 }).to_be_bytes());
                     b.push(0);
                     b.extend_from_slice(&[0; 16]);
                     b.extend_from_slice(&0u32.to_be_bytes());
